@@ -137,6 +137,36 @@ theorem readyFold_cancel (c : Cfg) (s : State) :
       cases (s.nd d).status <;> simp [readyEffect] <;> split <;> simp
     · right; exact ⟨d', List.mem_cons_of_mem _ hd', h1⟩
 
+theorem readyEffect_block {st : NStatus} {cf cs : Bool} {l : NStatus}
+    (h : readyEffect st cf cs = .block l) : l = .cancel ∨ l = .skipped := by
+  unfold readyEffect at h
+  cases st <;> grind
+
+/-- the loop writes only the labels `cancel` and `skipped` -/
+theorem readyFold_label (c : Cfg) (s : State) (l : NStatus) :
+    ∀ ds acc, (readyFold c s ds acc).2 = some l → acc.2 = some l ∨ l = .cancel ∨ l = .skipped := by
+  intro ds
+  induction ds with
+  | nil => intro acc h; left; simpa [readyFold] using h
+  | cons d ds ih =>
+    intro (r, l') h
+    simp only [readyFold] at h
+    split at h <;> rename_i he <;> rcases ih _ h with h1 | h1
+    · left; simpa using h1
+    · right; exact h1
+    · left; simpa using h1
+    · right; exact h1
+    · right
+      simp only [Option.some.injEq] at h1
+      subst h1
+      exact readyEffect_block he
+    · right; exact h1
+
+theorem isReady_label (c : Cfg) (s : State) (i : Nat) (l : NStatus) (h : (isReady c s i).2 = some l) :
+    l = .cancel ∨ l = .skipped := by
+  unfold isReady at h
+  simpa using readyFold_label c s l _ _ h
+
 theorem isReady_fst_true (c : Cfg) (s : State) (i : Nat) (h : (isReady c s i).1 = true) :
     (isReady c s i).2 = none := by
   unfold isReady at h ⊢
